@@ -12,14 +12,14 @@ KF = 'KF-C16-partial-copy'
 def queries(tier, kfs):
     qs = []
     open_kf = kfs.get(KF, {}).get('status') == 'open'
-    cfgs = [(3, 2, 1, 3, 0, 0b001), (4, 2, 1, 3, 1, 0b1001), (4, 2, 0, 2, 1, 0b0001), (3, 2, 0, 4, 0, 0)]
+    cfgs = [(3, 2, 1, 3, 0, 0b001, 1), (4, 2, 1, 3, 1, 0b1001, 1), (4, 2, 0, 2, 1, 0b0001, 2), (3, 2, 0, 4, 0, 0, 1), (3, 2, 1, 2, 1, 0b100, 2)]
     if tier != 'quick':
-        cfgs += [(5, 3, 1, 4, 1, 0b10001), (5, 3, 0, 3, 1, 0b00100), (6, 2, 1, 5, 0, 0b100001)]
-    for (n, d, single, nlev, um, bl) in cfgs:
-        base = dict(N=n, D=d, SINGLE=single, NLEV=nlev, USE_MASK=um, BLMASK=bl)
+        cfgs += [(5, 3, 1, 4, 1, 0b10001, 1), (5, 3, 0, 3, 1, 0b00100, 2), (6, 2, 1, 5, 0, 0b100001, 1)]
+    for (n, d, single, nlev, um, bl, rounds) in cfgs:
+        base = dict(N=n, D=d, SINGLE=single, NLEV=nlev, USE_MASK=um, BLMASK=bl, ROUNDS=rounds)
         ud = dict(FSV_N=n, FSV_D=d, FSV_SINGLE=single)
-        qid = 'save.N%d.D%d.%s.lev%d.m%d.bl%x' % (n, d, 'single' if single else 'multi', nlev, um, bl)
-        b = dict(N=n, D=d, direction='single' if single else 'multi', levels=nlev, mask='symbolic' if um else 'none', BL=bl)
+        qid = 'save.N%d.D%d.%s.lev%d.m%d.bl%x.r%d' % (n, d, 'single' if single else 'multi', nlev, um, bl, rounds)
+        b = dict(N=n, D=d, direction='single' if single else 'multi', levels=nlev, mask='symbolic' if um else 'none', BL=bl, saves=rounds)
         kw = dict(unwind=max(16, n * (d + 1) + 3), solver='cadical', timeout=900, bounds=b)
         if open_kf:
             qs.append(Query(qid + '.excl', 'snapshot.cpp', 'c16.c', ud, dict(base, EXCL_KF=1), **kw))
